@@ -36,10 +36,11 @@ func VerifNewServer(v dispatch, f interface{}, withContext bool, conf *transport
 
 // VerifProxyState is a snapshot of the per-proxy resources C09 names.
 type VerifProxyState struct {
-	QueueLen  int32
-	InvokeNum int32
-	Pending   int // entries in the pending-reply tables of all adapters
-	Adapters  int
+	QueueLen     int32
+	InvokeNum    int32
+	Pending      int // entries in the pending-reply tables of all adapters
+	Adapters     int
+	ConnInFlight int64 // requests written and not yet answered, summed over the adapters' connections
 }
 
 func VerifState(s *ServantProxy) VerifProxyState {
@@ -49,6 +50,11 @@ func VerifState(s *ServantProxy) VerifProxyState {
 		em.epList.Range(func(k, v interface{}) bool {
 			st.Adapters++
 			st.Pending += verifPending(v.(*AdapterProxy))
+			if tc := v.(*AdapterProxy).tarsClient; tc != nil {
+				if n, ok := tc.VerifInFlight(); ok {
+					st.ConnInFlight += n
+				}
+			}
 			return true
 		})
 	}
